@@ -39,13 +39,18 @@ class C17(InterpProp):
 
     def knobs(self, rnd, tier):
         return gen.Knobs(p_internal=0.3, p_history=0.5, max_states=rnd.choice([6, 10, 16]), time_preds=0.1,
-                         no_state_names=True, history_focus=0.4, twins=0.25, atwins=rnd.choice([0, 0, 0.15]))
+                         no_state_names=True, history_focus=0.4, twins=0.25, atwins=rnd.choice([0, 0, 0.15]),
+                         contracts=rnd.choice([0.0, 0.0, 0.4]), cflags=0)
 
     # ---- generation -------------------------------------------------------------------------------
     def gen_case(self, rnd, tier):
         kn = self.knobs(rnd, tier)
         g = gen.ChartGen(rnd, kn)
         sc = g.build()
+        # (contracts on the transitions only: the root state of a guest is merged with a state of its host, whose
+        #  contract is the host's business)
+        root = sc.state_for(sc.root)
+        del root.preconditions[:], root.postconditions[:], root.invariants[:]
         ops1 = gen.gen_ops(rnd, kn, self.n_ops)
         from sismic.model import FinalState
         root_final = any(isinstance(sc.state_for(c), FinalState) for c in sc.children_for(sc.root))
@@ -148,6 +153,10 @@ class C17(InterpProp):
         if p.get('warm'):
             # the renamed chart is run as the very object that was used and then renamed
             charts = [copy.deepcopy(case.aux['charts'][0]), case.aux['charts'][1]]
+        elif __import__('zlib').crc32(json.dumps(p['ops1']).encode()) % 2 == 0:
+            # the very objects: the statechart as the client built it, and what rename_state / copy_from_statechart
+            # made of it (running a statechart does not change it)
+            charts = list(case.aux['charts'])
         else:
             charts = [copy.deepcopy(c) for c in case.aux['charts']]
         case.aux['run_charts'] = charts
